@@ -25,12 +25,20 @@ def executable(insts, obs):
 # ------------------------------------------------------------------ C02
 UNIFORM = [{"p": "", "d": "e1"}, {"p": "", "d": "e2"}, {"p": "", "d": "n2"}, {"p": "", "d": "e3"}, {"p": "", "d": "n3"}]
 def check_C02(tier, seed):
-    res = Result("C02", tier, seed, "exploration")
+    import props_interp as PI, random
+    res = Result("C02", tier, seed, "model_checking")
     wd = workdir("C02")
+    quick = tier == "quick"
     insts = universe.semantic_universe(tier, seed + 400)
-    for inst in insts: inst["policies"] = UNIFORM
-    ntr = 8 if tier == "quick" else 24
-    obs = observe(insts, wd, f"batch:{ntr},chunk:3", seed)
+    rng = random.Random(seed)
+    for inst in insts:
+        inst["policies"] = UNIFORM
+        inst["tpolicies"] = [{"p": "", "d": "e2"}, {"p": PI.random_policy_text(rng, 40), "d": "n1"}]
+    ntr = 8 if quick else 24
+    ntrace = 150 if quick else 1200
+    for inst in insts[ntrace:]: inst["tpolicies"] = []
+    obs = observe(insts, wd, f"ir,batch:{ntr},chunk:3,trace", seed)
+    # (1) real vs real: the row sequence under sampled policies equals the unbatched run
     npol = 0; seen = set(); nontrivial = 0
     for inst, o in executable(insts, obs):
         b = o["batch"]; npol += b["policies"]
@@ -42,13 +50,61 @@ def check_C02(tier, seed):
             what = {"rows": "row sequence differs", "panic": f"engine panicked ({bad.get('err', '')[:160]})", "argerr": "argument error"}[bad["what"]]
             res.violation(f"{what} under batching policy [{bad['policy']}] default {bad['default']} for query {inst['text']!r}", text=bad.get("err", "rows differ"), tags=props.inst_tags(inst),
                           replay=props.replay_case(inst, o, policy=bad["policy"], default=bad["default"], batched_rows=bad.get("rows")))
-        if not b["bad"] and o["exec"]["rows"] and b["ncalls"] >= 4: res.sample(brief(inst, {"rows": len(o["exec"]["rows"]), "resolver_calls": b["ncalls"], "policies": b["policies"]}), cap=3)
-    res.cov["evaluations"] = npol
+        if not b["bad"] and o["exec"]["rows"] and b["ncalls"] >= 4: res.sample(brief(inst, {"rows": len(o["exec"]["rows"]), "resolver_calls": b["ncalls"], "policies": b["policies"]}), cap=2)
+    # (2) the model: every schedule of the general bounded-buffer adapter (Cap 2, pulls inside calls) on small instances
+    small = [PI.interp_instance(i, o) for i, o in zip(insts, obs) if PI.usable(i, o, 12) and o.get("trace") and o["trace"][0].get("t") == "ok" and len(o["trace"][0]["events"]) <= (110 if quick else 170)]
+    small = small[: (40 if quick else 200)]
+    for k, x in enumerate(small): x["id"] = k + 1
+    mc = PI.mc_explore(res, small, "MC_Interp_c2", wd, "mc", timeout=(240 if quick else 2400))
+    for inv, x in mc["violated"]:
+        msg = f"Interp (all schedules) violates {inv} on query {x['text']!r}" if x else f"Interp violates {inv}"
+        if inv in ("RowsPrefix", "RowsFinal", "SemFinal"): res.drift.append(msg + " - the model's rows differ from the real engine's unbatched rows")
+        else: res.violation(msg, text="model " + inv, replay={"instance": x, "invariant": inv})
+    # (3) binding B: traces of Tap(Batching(GA)) under read-ahead policies must be behaviours of Interp (policy inferred by TLC)
+    txs = PI.trace_instances(insts, obs)
+    acc, rej, bad_inv = PI.validate(res, txs, wd, "tr")
+    byid = {x["id"]: x for x in txs}
+    for iid, d in rej.items():
+        x = byid[iid]
+        if d and d.get("next") and d["next"]["e"] == "Row":
+            res.violation(f"under policy [{x['policy']}|{x['default']}] the engine produced a row the specification does not produce at that point (event {d['matched'] + 1} of {d['of']}) for query {x['text']!r}",
+                          text="trace-row", replay={"instance": {k: x[k] for k in ("schema", "g", "q", "text", "args")}, "policy": x["policy"], "default": x["default"], "diag": d})
+        else:
+            res.drift.append(f"trace of query {x['text'][:80]!r} under [{x['policy'][:20]}|{x['default']}] is not a behaviour of Interp: {json.dumps(d)[:300]}")
+    for inv, iid in bad_inv:
+        if inv in ("NoPanic", "LentIffInCall"): res.violation(f"real trace drives Interp into a violation of {inv}", text="trace " + inv, replay={"instance": byid.get(iid, {}).get("text")})
+    # (4) binding A: schedules generated by TLC replayed through the Scripted adapter on the real engine
+    simx = [PI.interp_instance(i, o) for i, o in zip(insts, obs) if PI.usable(i, o, 30) and o["exec"]["rows"]][: (60 if quick else 400)]
+    for k, x in enumerate(simx): x["id"] = k + 1
+    scheds = PI.tlc_schedules(res, simx, "MC_Interp_c2", wd, 300 if quick else 4000, seed)
+    src = {i["id"]: i for i in insts}
+    rinsts = []
+    for k, x in enumerate(simx):
+        if (k + 1) in scheds:
+            i2 = dict(src[x["src"]]); i2["scheds"] = scheds[k + 1]; i2["policies"] = []; i2["tpolicies"] = []; rinsts.append(i2)
+    nsched = 0; sdrift = 0
+    if rinsts:
+        robs = observe(rinsts, wd, "sched:2", seed, shards=min(8, max(1, len(rinsts) // 10)))
+        for inst, o in zip(rinsts, robs):
+            sc = o.get("sched", {"ran": 0, "bad": [], "script_drift": 0})
+            nsched += sc["ran"]; sdrift += sc["script_drift"]
+            for bad in sc["bad"]:
+                res.violation(f"{'row sequence differs' if bad['what'] == 'rows' else 'engine panicked: ' + bad.get('err', '')[:160]} under the TLC-generated adapter schedule {bad['sched'][:60]} for query {inst['text']!r}",
+                              text=bad.get("err", "rows differ"), tags=props.inst_tags(inst), replay=props.replay_case(inst, o, sched=bad["sched"], cap=2))
+    if sdrift: res.drift.append(f"{sdrift} TLC schedules were not consumed exactly by the real engine (decision points differ from Interp)")
+    res.cov["evaluations"] = npol + nsched + len(txs)
     res.cov["distinct_nontrivial"] = nontrivial
-    res.cov["rule"] = (f"every executable instance of the semantic universe is run with {len(UNIFORM)} uniform policies (eager/lazy x chunk 1..3 at every resolver call) and {ntr} seeded random per-call policies "
-                       "(eager flag and chunk size 1..3 per call site, order-preserving); the row SEQUENCE must equal the unbatched run and nothing may panic. evaluations = policy runs; "
-                       "distinct non-trivial = distinct instances with at least one row and at least two resolver calls")
-    res.assumptions += ["the Batching wrapper preserves context order (by construction: a FIFO buffer)"]
+    res.cov["traces_validated_against_impl"] = len(acc)
+    res.cov["exhaustive"] = False
+    res.cov["rule"] = (f"(1) every executable instance of the semantic universe under {len(UNIFORM)} uniform and {ntr} seeded random per-call read-ahead policies: row SEQUENCE equal to the unbatched run, no panic; "
+                       f"(2) TLC explores spec/Interp.tla over EVERY schedule of the general order-preserving adapter (buffer <= 2, pulls inside resolver calls) for {len(small)} small instances whose IR comes from the real frontend, "
+                       "checking NoPanic, carrier discipline (LentIffInCall), rows = the real engine's rows in order and = Sem as a bag in every state; (3) real AdapterTap traces of batched runs validated as behaviours of Interp with the policy inferred; "
+                       f"(4) {nsched} schedules generated by TLC simulation replayed through the Scripted adapter on the real engine. evaluations = policy runs + schedules + traces; distinct non-trivial = distinct instances with >= 1 row and >= 2 resolver calls")
+    res.notes.update({"policy_runs": npol, "mc_instances": len(small), "mc_states": mc["distinct"], "mc_complete": mc["complete"], "mc_wall_s": round(mc["wall"], 1), "traces": len(txs), "traces_accepted": len(acc),
+                      "traces_rejected": len(rej), "tlc_schedules_replayed": nsched, "schedule_drift": sdrift})
+    if txs: res.sample({"trace_of": txs[0]["text"], "policy": txs[0]["default"], "events": [f"{e['e']}:{e['call'] or e['ny']}" for e in txs[0]["events"][:25]]}, cap=4)
+    if scheds and rinsts: res.sample({"tlc_schedule": rinsts[0]["scheds"][0][:80], "query": rinsts[0]["text"]}, cap=5)
+    res.assumptions += ["the Batching / Scripted wrappers preserve context order (FIFO buffers)", "Interp.tla mirrors execution.rs (checked by trace validation; disagreement is reported as MODEL-DRIFT)"]
     return res
 
 # ------------------------------------------------------------------ C03
@@ -66,7 +122,9 @@ def check_C03(tier, seed):
     res = Result("C03", tier, seed, "model_checking")
     wd = workdir("C03")
     insts = [with_root_id(i) for i in universe.semantic_universe(tier, seed + 500)]
-    obs = observe(insts, wd, "pulls", seed)
+    ntrace = 400 if tier == "quick" else 4000
+    for inst in insts: inst["tpolicies"] = [{"p": "", "d": "n1"}]
+    obs = observe(insts[:ntrace], wd, "ir,pulls,trace", seed) + (observe(insts[ntrace:], wd, "pulls", seed) if insts[ntrace:] else [])
     ji, jo = [], []
     for inst, o in executable(insts, obs):
         if len(o["exec"]["rows"]) > props.MAX_JUDGED_ROWS: continue
@@ -93,12 +151,37 @@ def check_C03(tier, seed):
         if info["rows"] >= 2 and info["starts"] >= 3 and not any(c.startswith("C03.") for c in v):
             res.sample({"query": inst["text"], "starts": info["starts"], "pulled_at_each_row": o["pulls"][:12], "drops[k, accesses at drop, after]": o["drops"][:4]}, cap=3)
         if info["unexplained"]: res.drift.append(f"instance {inst['id']}: {info['unexplained']} rows not explained by Sem!RowsFrom (C01's business)")
+    # model level: Interp with the adapter that never reads ahead satisfies Lazy in every state (nothing fetched unless the consumer waits,
+    # a row comes from the last start vertex fetched, no buffered data between requests)
+    import props_interp as PI
+    small = [PI.interp_instance(i, o) for i, o in zip(insts[:ntrace], obs[:ntrace]) if PI.usable(i, o, 30)][: (150 if tier == "quick" else 1500)]
+    for k, x in enumerate(small): x["id"] = k + 1
+    mc = PI.mc_explore(res, small, "MC_Interp_lazy", wd, "mc", timeout=(300 if tier == "quick" else 1800))
+    for inv, x in mc["violated"]:
+        msg = f"Interp (no read-ahead) violates {inv} on query {x['text']!r}" if x else f"Interp violates {inv}"
+        if inv == "Lazy": res.violation(msg, text="model Lazy", replay={"instance": x, "invariant": inv})
+        else: res.drift.append(msg)
+    # binding B: the real traces of the unbatched engine are behaviours of Interp with Cap = 1 and no eager pulls, Lazy checked at every step
+    txs = PI.trace_instances(insts[:ntrace], obs[:ntrace])
+    acc, rej, bad_inv = PI.validate(res, txs, wd, "tr", cfg="InterpTrace_lazy")
+    byid = {x["id"]: x for x in txs}
+    for iid, d in rej.items():
+        x = byid[iid]; nx = (d or {}).get("next") or {}
+        if nx.get("e") == "YieldFrom" and nx.get("fn") == "start" or nx.get("e") == "Advance" or nx.get("e") == "NbrInner":
+            res.violation(f"the engine accessed data that the lazy specification does not demand at that point (event {d['matched'] + 1} of {d['of']}: {nx.get('e')} call {nx.get('call')}) for query {x['text']!r}",
+                          text="trace-eager-access", tags=props.inst_tags(x), replay={"instance": {k: x[k] for k in ("schema", "g", "q", "text", "args")}, "diag": d})
+        else:
+            res.drift.append(f"lazy trace of {x['text'][:80]!r} is not a behaviour of Interp: {json.dumps(d)[:300]}")
+    for inv, iid in bad_inv:
+        if inv == "Lazy": res.violation(f"real trace violates the Lazy invariant of Interp", text="trace Lazy", replay={"instance": byid.get(iid, {}).get("text")})
     res.cov["evaluations"] = nprefix
     res.cov["distinct_nontrivial"] = nontrivial
-    res.cov["traces_validated_against_impl"] = len(ji)
+    res.cov["traces_validated_against_impl"] = len(ji) + len(acc)
     res.cov["rule"] = ("every executable instance (root vertex id added as an output so a row identifies its start vertex), run with the adapter that never reads ahead; for every prefix length k of the result stream "
                        "TLC checks pulled(k) <= position of the contributing start vertex (Sem!RowsFrom), zero accesses before the first request, zero accesses after dropping at k (k <= 6). "
-                       "evaluations = prefixes judged; distinct non-trivial = distinct instances with >= 1 row and >= 2 start vertices")
+                       f"Model level: TLC checks the invariant Lazy of spec/Interp.tla (Cap = 1, no pulls inside calls) on {len(small)} instances; the real AdapterTap traces of the unbatched engine are validated as behaviours of that "
+                       "lazy configuration with Lazy evaluated after every event. evaluations = prefixes judged; distinct non-trivial = distinct instances with >= 1 row and >= 2 start vertices")
+    res.notes.update({"mc_instances": len(small), "mc_states": mc["distinct"], "mc_complete": mc["complete"], "lazy_traces": len(txs), "lazy_traces_accepted": len(acc), "lazy_traces_rejected": len(rej)})
     return res
 
 # ------------------------------------------------------------------ C04
@@ -274,10 +357,11 @@ def check_C14(tier, seed):
 
 # ------------------------------------------------------------------ C15
 def check_C15(tier, seed):
-    res = Result("C15", tier, seed, "exploration")
+    import props_interp as PI
+    res = Result("C15", tier, seed, "model_checking")
     wd = workdir("C15")
     insts = universe.semantic_universe(tier, seed + 900)
-    obs = observe(insts, wd, "tap", seed)
+    obs = observe(insts, wd, "ir,tap,trace", seed)
     nops = 0; nontrivial = 0; seen = set(); ntr = 0
     for inst, o in executable(insts, obs):
         t = o["tap"]; ntr += 1
@@ -295,10 +379,22 @@ def check_C15(tier, seed):
         elif not t["replay"].get("same"):
             res.violation(f"replaying the recorded trace does not reproduce the rows for query {inst['text']!r}: {t['replay'].get('err', '')[:200]}", text="trace-replay " + t["replay"].get("err", ""), tags=props.inst_tags(inst), replay=props.replay_case(inst, o, tap=t))
         elif o["exec"]["rows"] and t["ops"] > 30: res.sample({"query": inst["text"], "rows": len(o["exec"]["rows"]), "trace_ops": t["ops"]}, cap=3)
+    # the recorded trace is a behaviour of the specification (every event, every context, every row)
+    txs = PI.trace_instances(insts, obs)
+    acc, rej, bad_inv = PI.validate(res, txs, wd, "tr")
+    byid = {x["id"]: x for x in txs}
+    for iid, d in rej.items():
+        x = byid[iid]; nx = (d or {}).get("next") or {}
+        if nx.get("e") == "Row":
+            res.violation(f"the recorded trace contains a row the specification does not produce at that point (event {d['matched'] + 1} of {d['of']}) for query {x['text']!r}", text="trace-row",
+                          tags=props.inst_tags(x), replay={"instance": {k: x[k] for k in ("schema", "g", "q", "text", "args")}, "diag": d})
+        else: res.drift.append(f"recorded trace of {x['text'][:80]!r} is not a behaviour of Interp: {json.dumps(d)[:300]}")
     res.cov["evaluations"] = ntr
     res.cov["distinct_nontrivial"] = nontrivial
-    res.cov["traces_validated_against_impl"] = ntr
+    res.cov["traces_validated_against_impl"] = len(acc)
     res.cov["rule"] = ("every executable instance is run through the repository's AdapterTap; rows must equal the direct run; the trace is serialised to RON, deserialised (must be equal), and replayed by the repository's "
-                       "replay::assert_interpreted_results with no data source attached (must reproduce exactly the rows). distinct non-trivial = distinct instances with at least one row")
+                       "replay::assert_interpreted_results with no data source attached (must reproduce exactly the rows); the same trace, exported event by event, is validated by TLC as a behaviour of spec/Interp.tla "
+                       "(InterpTrace: calls, advances, every projected context, outcomes, rows). distinct non-trivial = distinct instances with at least one row")
+    res.notes.update({"traces": len(txs), "traces_accepted": len(acc), "traces_rejected": len(rej)})
     res.notes["trace_ops_total"] = nops
     return res
